@@ -78,7 +78,19 @@ func exprList(r *Rng, n int) string {
 
 func genC14Stmt(r *Rng, reading bool) c14Stmt {
 	for {
-		switch k := r.Intn(35); {
+		switch k := r.Intn(37); {
+		case k == 35 || k == 36:
+			// comma-separated FROM lists (folded into cross joins when the view is loaded), evaluated more than once
+			return c14Stmt{Src: r.PickS(
+				"SELECT a.id, b.w FROM a, b WHERE a.id = b.id ORDER BY a.id, b.w;",
+				"PREPARE pc FROM 'SELECT COUNT(*) FROM a x, b y WHERE x.g = y.g AND IFNULL(x.v, 0) > ?'; EXECUTE pc USING 0; EXECUTE pc USING 5; EXECUTE pc USING 0; DISPOSE PREPARE pc;",
+				"VAR @q := 0; WHILE @q < 2 DO SELECT COUNT(*) FROM (SELECT id FROM a WHERE id < 4) p, (SELECT id FROM b) q; @q := @q + 1; END WHILE; DISPOSE @q;",
+				"SELECT id, (SELECT COUNT(*) FROM b y, b z WHERE y.g = a.g AND z.id = y.id) AS n FROM a ORDER BY id;",
+				"DECLARE fc FUNCTION (@k) AS BEGIN RETURN (SELECT COUNT(*) FROM a x, a y WHERE x.g = y.g AND x.id < @k); END; PRINT fc(3); PRINT fc(5); PRINT fc(3); DISPOSE FUNCTION fc;",
+				"DECLARE cc CURSOR FOR SELECT x.id, y.w FROM a x, b y WHERE x.id = y.id ORDER BY x.id, y.w; OPEN cc; VAR @r1, @r2; FETCH cc INTO @r1, @r2; CLOSE cc; OPEN cc; FETCH cc INTO @r1, @r2; PRINT @r1; CLOSE cc; DISPOSE CURSOR cc; DISPOSE @r1; DISPOSE @r2;",
+				"WITH RECURSIVE n (i) AS (SELECT 1 UNION ALL SELECT i + 1 FROM n, (SELECT 1 AS one) o WHERE i < 4) SELECT i FROM n;",
+				"SELECT a.id, t.c FROM a, LATERAL (SELECT COUNT(*) AS c FROM b, (SELECT 1 AS k) o WHERE b.g = a.g) t ORDER BY a.id;",
+				"SELECT x.id, y.id, z.id FROM a x, a y, b z WHERE x.id = y.id AND y.id = z.id ORDER BY x.id, z.w;"), Repeat: 2, Reads: true}
 		case k == 33:
 			// flags set from variables, literals, cells and expressions: the values are only read
 			return c14Stmt{Src: "SET @@LIMIT_RECURSION TO @n; SET @@WAIT_TIMEOUT TO @f; SET @@TIMEZONE TO 'UTC'; SET @@JSON_QUERY TO (SELECT s FROM a WHERE id = 1); PRINT @n + 1; PRINT @f * 2; PRINT @x || 'z'; SET @@JSON_QUERY TO ''; SHOW @@LIMIT_RECURSION;", Repeat: 2, Reads: true}
